@@ -695,6 +695,25 @@ def rule_inplace():
             failing.append(f"{rel(p)}:{n.lineno}: augmented item assignment")
         if isinstance(n, ast.Assign) and any(isinstance(t, ast.Subscript) and root_name(t) not in ("kwargs",) for t in n.targets):
             failing.append(f"{rel(p)}:{n.lineno}: item assignment {ast.unparse(n.targets[0])}")
+    # (7) positional output buffers: numpy ufuncs take `out` as the next positional argument after their operands. Every ufunc registered through
+    # classical_from_numpy.elementwise must therefore either be wrapped by _associative_binary_to_nary (which only ever calls it with two arguments) or carry
+    # num_args= (operand count checked before the call) - otherwise einx.OP('a, a, a -> a', x, y, z) writes into the caller's z
+    fn_el = find_func(tree, "elementwise")
+    guards = [n for n in ast.walk(fn_el) if isinstance(n, ast.If) and "num_args" in ast.unparse(n.test) and "len(xs)" in ast.unparse(n.test) and any(isinstance(q, ast.Raise) for q in n.body)] if fn_el else []
+    inner_el = [n for n in ast.walk(fn_el) if isinstance(n, ast.FunctionDef) and n is not fn_el] if fn_el else []
+    guard_first = bool(guards) and bool(inner_el) and inner_el[0].body and inner_el[0].body[0] is guards[0]
+    if not guard_first:
+        failing.append(f"{rel(p)}: classical_from_numpy.elementwise does not check the operand count (num_args) before calling the numpy function")
+    for n in ast.walk(cls):
+        if isinstance(n, ast.Call) and ast.unparse(n.func).endswith("classical_from_numpy.elementwise") and n.args:
+            a0 = ast.unparse(n.args[0])
+            site = f"{rel(p)}:{n.lineno}:elementwise({a0[:40]})"
+            sites.append(site)
+            nary = a0.startswith("_associative_binary_to_nary(")
+            kw = {k.arg: k.value for k in n.keywords}
+            fixed = "num_args" in kw and isinstance(kw["num_args"], ast.Constant) and isinstance(kw["num_args"].value, int)
+            if not (nary or fixed):
+                failing.append(site + " (numpy function callable with extra positional arguments: the next positional argument of a ufunc is its output buffer)")
     # (6) nowhere in einx: array metadata writers (flags / shape / dtype / strides of an existing object) - the frame condition of C09 also covers
     # the objects passed as sizes and options, which never reach the backend but pass through the cache-key and constraint code
     META_WRITERS = {"setflags", "setfield", "resize", "itemset", "byteswap"}
